@@ -1728,6 +1728,12 @@ def apply_injections(rng, kinds_):
         except (IndexError, KeyError, ValueError):
             continue          # the first injection left nothing for the second one to attach to
         del s["base_ref"]
+        # the base only configures packages that are in its tree (an injection into a package that
+        # an earlier injection added to the scenario must not leak into the base)
+        for pth in list(base["packages"]):
+            nm = name_of(pth)
+            if nm not in base["pkgs"] and not any(x.startswith(nm + "/") for x in base["pkgs"]):
+                del base["packages"][pth]
         if s["raw_config"] is not None or s["no_config"] or foreign_class(s) or foreign_class(base):
             if s["raw_config"] is not None or s["no_config"]:
                 return s, base
